@@ -16,7 +16,7 @@ CONSTANTS Families,      \* subset of {"small", "hash", "fit", "poly", "fewbk"}
           FitDesigns,    \* names of the tiny designs
           FitMult, FitNmin, FitNmax, YSel, WMode,         \* "fit": multiplicities of pool points, data values, weights
           PolyNords, PolySegs,                    \* "poly": orders and numbers of cells
-          MNords, MaxS, KnotS, MaxFitsSel         \* machine: orders, cells, data on breakpoints when S <= KnotS, budgets
+          MNords, MaxS, CntFullS, KnotS, MaxFitsSel        \* machine: orders, cells, data on breakpoints when S <= KnotS, budgets
 VARIABLES c, exp
 allvars == <<c, exp, prob, bkmask, status, nfits, phase>>
 
@@ -77,7 +77,7 @@ DesignOf(name) ==
     [] name = "o2s2" -> [k |-> 2, t |-> <<-1, 0, 1, 2, 3>>,   pool |-> <<OfInt(0), H(1), OfInt(1), H(3), OfInt(2)>>]
     [] name = "o2s2w" -> [k |-> 2, t |-> <<-2, 0, 2, 4, 6>>,  pool |-> <<OfInt(0), OfInt(1), H(3), OfInt(3), OfInt(4)>>]
     [] name = "o3s1" -> [k |-> 3, t |-> <<-2, -1, 0, 1, 2, 3>>, pool |-> <<OfInt(0), OfInt(0), H(1), H(1), OfInt(1), OfInt(1)>>]
-    [] name = "o3s1w" -> [k |-> 3, t |-> <<-4, -2, 0, 2, 4, 6>>, pool |-> <<OfInt(0), H(1), OfInt(1), OfInt(1), OfInt(2)>>]
+    [] name = "o3s1w" -> [k |-> 3, t |-> <<-4, -2, 0, 2, 4, 6>>, pool |-> <<OfInt(0), OfInt(0), OfInt(1), OfInt(1), OfInt(2), OfInt(2)>>]
 RECURSIVE Repeat(_, _, _)
 Repeat(pool, mult, u) == IF u > Len(pool) THEN <<>>
                          ELSE [m \in 1..mult[u] |-> pool[u]] \o Repeat(pool, mult, u + 1)
@@ -185,11 +185,11 @@ C09b_WellSupportedIsWellPosed == (IsFit /\ exp.allowed = {0}) => exp.wellposed
 C09b_PolyDataInteger == IsPoly => AllInt(PolyData(c.pc, c.x)) /\ Len(c.pc) <= c.k
 
 (* =============================== machine mode =============================== *)
-CntVals(k) == {0, 1, 2, k + 1}
+CntVals(k, S) == IF S > CntFullS THEN {0, 1, k + 1} ELSE {0, 1, 2, k + 1}
 KnotFns(k, S) == IF S > KnotS THEN {[g \in 1..(S + 1) |-> 0]}
                  ELSE {g \in [1..(S + 1) -> {0, 1}] : k > 1 \/ \A m \in 2..S : g[m] = 0}
 Patterns(k, S) == {[q \in 1..(2 * S + 1) |-> IF q % 2 = 0 THEN f[q \div 2] ELSE g[(q + 1) \div 2]] :
-                     f \in [1..S -> CntVals(k)], g \in KnotFns(k, S)}
+                     f \in [1..S -> CntVals(k, S)], g \in KnotFns(k, S)}
 SInit == /\ \E k \in MNords : \E S \in 1..MaxS : \E pcv \in Patterns(k, S) :
               \E mf \in (IF MaxFitsSel = "both" THEN {1, S} ELSE {S}) :
                  MInit([nord |-> k, S |-> S, pc |-> pcv], mf)
